@@ -61,7 +61,11 @@ def handlePersp (f a near far : Q) (probes : List (V3 Q)) (impl : List String) :
   match Mat.perspective f a near far with
   | .panic m =>
     let v := Verdict.ok ["persp", "invalid-params"]
-    v.withDiff (!isPanic impl) s!"model panics ({m}), implementation returns"
+    let v := v.withDiff (!isPanic impl) s!"model panics ({m}), implementation returns"
+    -- spec, from the case alone: the documented contract "panics if any parameter is nonpositive or the
+    -- range is empty" (a matrix built from such parameters cannot satisfy the inside-iff property)
+    let valid := decide (0 < f) && decide (0 < a) && decide (0 < near) && decide (near < far)
+    v.withSpec (!valid && !isPanic impl) "persp-accepts-invalid-params" "perspective() returns a matrix for nonpositive parameters or an empty depth range"
   | .ok mM =>
     let v := Verdict.ok ["persp"]
     if isPanic impl then (v.withDiff true "implementation panics on valid parameters").withSpec true "persp-panics" "perspective() panics on valid parameters"
